@@ -13,7 +13,8 @@ use serde_json::json;
 #[derive(Clone, Debug)]
 enum Case {
     /// consistent chain: genesis, B(k txs), B(1); optional --start
-    Pass { coin: &'static str, k: usize, start: Option<u64>, auxpow: bool },
+    Pass { coin: &'static str, k: usize, start: Option<u64>, auxpow: bool, shape: Option<(usize, usize, usize, usize, bool)> },
+    // shape: the block's last transaction has (inputs, outputs, scriptSig bytes, scriptPubKey bytes, segwit form)
     /// consistent 5-block chain indexed at heights base..base+4 only (sparse index), --verify --start base+1;
     /// `flip`: one bit of the prev-hash field of block base+2 flipped (must fail there)
     HighPass { base: u64, flip: bool },
@@ -137,6 +138,9 @@ fn control_delivers(wk: &Worker, tpb: usize, start: Option<u64>, height: u64) ->
 }
 
 fn judge_fail(r: &RunResult, height: u64) -> Option<(String, String)> {
+    if r.stderr.contains("VERIF-HANG") {
+        return Some(("run-does-not-terminate".into(), r.stderr.lines().last().unwrap_or("").to_string()));
+    }
     if r.stderr.contains("VERIF-TIMEOUT") {
         return Some(("machinery-timeout".into(), "".into()));
     }
@@ -161,11 +165,11 @@ pub fn run() -> Report {
     // must pass
     let ks: Vec<usize> = (1..=17).chain([31, 32, 33, 64, 65]).collect();
     for &k in &ks {
-        cases.push(Case::Pass { coin: "bitcoin", k, start: None, auxpow: false });
+        cases.push(Case::Pass { coin: "bitcoin", k, start: None, auxpow: false, shape: None });
     }
     if thorough {
         for k in [127usize, 128, 129, 255, 256, 257, 1000] {
-            cases.push(Case::Pass { coin: "bitcoin", k, start: None, auxpow: false });
+            cases.push(Case::Pass { coin: "bitcoin", k, start: None, auxpow: false, shape: None });
         }
     }
     for c in COINS.iter() {
@@ -174,14 +178,28 @@ pub fn run() -> Report {
                 if s == 0 && genesis(c).is_none() {
                     continue;
                 }
-                cases.push(Case::Pass { coin: c.name, k, start: if s == 0 { None } else { Some(s) }, auxpow: false });
+                cases.push(Case::Pass { coin: c.name, k, start: if s == 0 { None } else { Some(s) }, auxpow: false, shape: None });
             }
         }
     }
     for cn in ["namecoin", "dogecoin"] {
         for k in [1usize, 3, 6] {
-            cases.push(Case::Pass { coin: cn, k, start: None, auxpow: true });
+            cases.push(Case::Pass { coin: cn, k, start: None, auxpow: true, shape: None });
         }
+    }
+    // "for any transaction": counts and lengths of one transaction at and around the CompactSize widths and round numbers
+    for segwit in [false, true] {
+        for n in [252usize, 253, 1000, 4095, 4096, 4097, 10_000, 65_535, 65_536] {
+            cases.push(Case::Pass { coin: "bitcoin", k: 3, start: None, auxpow: false, shape: Some((n, 1, 1, 25, segwit)) });
+            cases.push(Case::Pass { coin: "bitcoin", k: 3, start: if n % 2 == 0 { Some(1) } else { None }, auxpow: false, shape: Some((1, n, 1, 25, segwit)) });
+        }
+        for l in [252usize, 253, 4096, 4097, 10_000, 65_535, 65_536, 1_000_000] {
+            cases.push(Case::Pass { coin: "bitcoin", k: 2, start: None, auxpow: false, shape: Some((1, 1, l, 25, segwit)) });
+            cases.push(Case::Pass { coin: "bitcoin", k: 2, start: None, auxpow: false, shape: Some((1, 1, 1, l, segwit)) });
+        }
+    }
+    for cn in ["litecoin", "dogecoin"] {
+        cases.push(Case::Pass { coin: cn, k: 2, start: None, auxpow: false, shape: Some((4097, 4097, 1, 25, false)) });
     }
     for base in [127u64, 16_511, 2_113_663, 270_549_119, (1 << 32) - 2, 1 << 40] {
         cases.push(Case::HighPass { base, flip: false });
@@ -250,7 +268,7 @@ pub fn run() -> Report {
             cases.push(Case::Multi { kinds, start: Some(3) });
         }
     }
-    rep.rule = "must pass: genesis,B(k),B(1) for k in 1..17,31,32,33,64,65 (every merkle-tree shape with an odd level up to depth 6) on bitcoin, k in {1,2,3,5} x --start {0,1,2} on all 8 coins, AuxPoW chains, sparse indexes at heights up to 2^40 with --start (pass, and fail with a flipped prev field); must fail at that height: every single-bit flip of prev-hash field, merkle field, transaction count and tx bytes of every block of 4-block chains with 1/2/3 txs per block, prev-field flips of the first processed block under --start, block swaps, wrong block 0 for 8 coins; bit flips in prev / merkle / transaction count / transaction bytes of merged-mined (AuxPoW) blocks of namecoin and dogecoin; all 4^4 combinations of {intact, resealed, prev-field rewritten to the stored predecessor's hash, both} over heights 1..4 (x --start) judged by the statement's rule; every CompactSize inside a transaction re-encoded in a wider form with the same value (the txid covers the bytes); (fail at the first processed height whose prev field is not the indexed hash of the preceding height, else pass); non-trivial = distinct case (pass cases: exit 0 with model-equal output; fail cases: corrupted byte inside the processed range)".into();
+    rep.rule = "must pass: genesis,B(k),B(1) for k in 1..17,31,32,33,64,65 (every merkle-tree shape with an odd level up to depth 6) on bitcoin, k in {1,2,3,5} x --start {0,1,2} on all 8 coins, AuxPoW chains, one transaction with 252..65 536 inputs / outputs or script lengths up to 1 000 000 (legacy and segwit form), sparse indexes at heights up to 2^40 with --start (pass, and fail with a flipped prev field); must fail at that height: every single-bit flip of prev-hash field, merkle field, transaction count and tx bytes of every block of 4-block chains with 1/2/3 txs per block, prev-field flips of the first processed block under --start, block swaps, wrong block 0 for 8 coins; bit flips in prev / merkle / transaction count / transaction bytes of merged-mined (AuxPoW) blocks of namecoin and dogecoin; all 4^4 combinations of {intact, resealed, prev-field rewritten to the stored predecessor's hash, both} over heights 1..4 (x --start) judged by the statement's rule; every CompactSize inside a transaction re-encoded in a wider form with the same value (the txid covers the bytes); (fail at the first processed height whose prev field is not the indexed hash of the preceding height, else pass); non-trivial = distinct case (pass cases: exit 0 with model-equal output; fail cases: corrupted byte inside the processed range)".into();
     rep.bound = json!({"cases": cases.len(), "flip_chains": "4 blocks x {1,2,3} txs", "flip_density": "every bit", "txs_per_block": if thorough { "1,2,3,4,5,8" } else { "1,2,3" }});
     rep.not_covered = vec!["multi-bit corruptions other than block swaps, re-encodings and the per-block deviation combinations".into(), "witness bytes / marker / flag (not txid-covered; don't-care)".into()];
     let root = refmodel::world::scratch_root();
@@ -263,7 +281,7 @@ pub fn run() -> Report {
             acc.transitions += 1;
             acc.nontrivial.insert(h8(format!("{:?}", c).as_bytes()));
             match c {
-                Case::Pass { coin: cname, k, start, auxpow } => {
+                Case::Pass { coin: cname, k, start, auxpow, shape } => {
                     let cn = coin(cname);
                     let mut cb = ChainBuilder::with_genesis(cn);
                     if *auxpow {
@@ -274,12 +292,17 @@ pub fn run() -> Report {
                     for j in 1..*k {
                         txs.push(TxP::base().build(j as u8));
                     }
+                    if let Some((n_in, n_out, sig, spk, segwit)) = shape {
+                        let p = TxP { segwit: *segwit, sig_lens: vec![*sig; *n_in], spk_lens: vec![*spk; *n_out], wit: if *segwit { vec![vec![2, 3]; *n_in] } else { vec![] }, ..TxP::base() };
+                        txs.push(p.build(99));
+                        acc.count("must-pass:transaction-shape", 1);
+                    }
                     cb.push_raw(txs);
                     cb.push(vec![]);
                     cb.push(vec![]);
                     if *auxpow {
                         for b in cb.blocks.iter_mut().skip(1) {
-                            b.auxpow = Some(refmodel::ser::AuxPow { parent_coinbase: coinbase(1, 1, vec![pay(1, 1)]), parent_hash: [7; 32], coinbase_branch: vec![[1; 32]; 2], coinbase_mask: 1, chain_branch: vec![], chain_mask: 0, parent_header: cb_header() });
+                            b.auxpow = Some(refmodel::ser::AuxPow { parent_coinbase: coinbase(1, 1, vec![pay(1, 1)]), parent_hash: [7; 32], coinbase_branch: vec![[1; 32]; 2], coinbase_mask: 1, chain_branch: vec![], chain_mask: 0, branch_wide: 0, parent_header: cb_header() });
                         }
                     }
                     let world = World::simple(cn, &cb.blocks, 0);
@@ -301,7 +324,7 @@ pub fn run() -> Report {
                         acc.sample(json!({"must_pass": format!("{:?}", c)}));
                     }
                     if let Some((sig, detail)) = bad.into_iter().next() {
-                        let rc = if *k > 20 { json!({"kind": "e1-described", "case": format!("{:?}", c)}) } else { replay_case(&world, &spec, json!({"must": "pass"}), &r, &wk.dir) };
+                        let rc = if *k > 20 || shape.is_some() { json!({"kind": "e1-described", "case": format!("{:?}", c)}) } else { replay_case(&world, &spec, json!({"must": "pass"}), &r, &wk.dir) };
                         acc.disagree(&sig, format!("{:?}: {}", c, detail), rc);
                     }
                 }
@@ -468,7 +491,7 @@ pub fn run() -> Report {
                         cb.push_raw(txs);
                     }
                     for b in cb.blocks.iter_mut().skip(1) {
-                        b.auxpow = Some(refmodel::ser::AuxPow { parent_coinbase: coinbase(1, 1, vec![pay(1, 1)]), parent_hash: [7; 32], coinbase_branch: vec![[1; 32]; 2], coinbase_mask: 1, chain_branch: vec![[2; 32]], chain_mask: 0, parent_header: cb_header() });
+                        b.auxpow = Some(refmodel::ser::AuxPow { parent_coinbase: coinbase(1, 1, vec![pay(1, 1)]), parent_hash: [7; 32], coinbase_branch: vec![[1; 32]; 2], coinbase_mask: 1, chain_branch: vec![[2; 32]], chain_mask: 0, branch_wide: 0, parent_header: cb_header() });
                     }
                     let mut world = World::new(cn);
                     let mut recs: Vec<IndexRec> = Vec::new();
